@@ -1602,6 +1602,13 @@ func (g *Gen) typeTag(t types.Type) string {
 	return n
 }
 
+func (g *Gen) needErrtext() {
+	g.needStr()
+	if !g.sc.has("errtext") {
+		g.sc.add([]string{"errtext"}, "(declare-fun errtext (Int) Str)")
+	}
+}
+
 func (g *Gen) needTypeof() {
 	if !g.sc.has("typeof") {
 		g.sc.add([]string{"typeof"}, "(declare-fun typeof (Int) Int)")
